@@ -78,7 +78,7 @@ extern int mpt_path_add(MPT_STRUCT(path) *path, int add)
 		if (len) {
 			data[len - 1] = path->sep;
 		} else {
-			path->first = add;
+			path->first = (add > UINT8_MAX) ? 0 : add;
 		}
 		/* set next part */
 		len += add;
